@@ -29,11 +29,18 @@ def run(prog):
         for g_ in canon.local_bodies(prog, fn, ok=lambda h: h.impl_self == fn.impl_self):
             if g_.kind != "Closure" and any(cs.callee.name == "push" and strip(cs.args[0])[0] == "param" and
                                             "Vec" in cs.callee.key() for cs in g_.terms.calls):
-                if not any(cs.callee.name == "push" and strip(cs.args[0]) == ("param", 3) for cs in fn.terms.calls):
+                if not any(cs.callee.name == "push" and "Vec" in cs.callee.key() and
+                           (strip(cs.args[0])[0] == "param" or (strip(cs.args[0])[0] == "field" and strip(strip(cs.args[0])[1])[0] == "param"))
+                           for cs in fn.terms.calls):
                     fn = g_
                 break
         te, cfg = fn.terms, fn.cfg
-        NP = next((strip(cs.args[0]) for cs in te.calls if cs.callee.name == "push" and strip(cs.args[0])[0] == "param" and "Vec" in cs.callee.key()), ("param", 3))
+        # the row list: a `&mut Vec<row>` parameter, or the `nodes` field of a `&mut self` serialiser
+        def rowlist(t):
+            t = strip(t)
+            return t[0] == "param" or (t[0] == "field" and strip(t[1])[0] == "param")
+        NP = next((strip(cs.args[0]) for cs in te.calls if cs.callee.name == "push" and rowlist(cs.args[0]) and "Vec" in cs.callee.key()), ("param", 3))
+        NPS = show(NP)
         kids = {g.npath for g in prog.lib_fns if g.npath.startswith(fn.npath + "::{closure")}
         pushes = [cs for cs in te.calls if cs.callee.name == "push" and strip(cs.args[0]) == NP]
         lens = [cs for cs in te.calls if cs.callee.name == "len" and strip(cs.args[0]) == NP]
@@ -57,7 +64,7 @@ def run(prog):
                       not any(cfg.dominates(l.bb, r.bb) and cfg.dominates(r.bb, p.bb) for r in recs) and
                       not any(q is not p and cfg.dominates(l.bb, q.bb) and cfg.dominates(q.bb, p.bb) for q in pushes)]
             pre_form = False
-            if not after and before and ins and show(strip(ins[0].args[2])) == "len(arg%d)" % NP[1]:
+            if not after and before and ins and show(strip(ins[0].args[2])) == "len(%s)" % NPS:
                 pre_form = True
             if pre_form:
                 pass
@@ -77,7 +84,7 @@ def run(prog):
                     # here; whether the flag may be re-used is CP's question, not this rule's
                     idx = strip(idx[4][idx[5].index("index")])
                 s_ = show(idx)
-                if not pre_form and not (s_.startswith("(len(arg%d) Sub" % NP[1]) and s_.rstrip(").0").endswith("1")):
+                if not pre_form and not (s_.startswith("(len(%s) Sub" % NPS) and s_.rstrip(").0").endswith("1")):
                     errs.append("the visited table stores %s for the node, not nodes.len() - 1 taken after the push: shared "
                                 "references then point at another row" % s_[:50])
                 ptrs = [a[1] for a in te.aggs if a[0] == ins[0].bb and isinstance(a[1], tuple) and a[1][0] == "agg" and a[1][3] == "Ptr"]
@@ -114,7 +121,16 @@ def roots(prog):
             for cs in g.terms.calls:
                 if cs.callee.name != "serialize_helper" or not cs.args or "serialize_helper" in g.npath:
                     continue
-                a = strip(cs.args[0])
+                # the pointer argument: the parameter of the helper whose type is the diagram pointer
+                pi = 0
+                hh = [h_ for h_ in prog.resolve(cs.callee) if h_.kind != "Closure"]
+                if len(hh) == 1:
+                    for i_ in range(len(cs.args)):
+                        ty_ = hh[0].locals[i_ + 1]["s"] if i_ + 1 < len(hh[0].locals) else ""
+                        if ("BddPtr" in ty_ or "SddPtr" in ty_) and "HashMap" not in ty_ and "Vec" not in ty_:
+                            pi = i_
+                            break
+                a = strip(cs.args[pi])
                 key = "%s:root-as-given" % f.npath
                 base = a
                 while base[0] in ("deref", "copy") or (mir.is_call(base) and base[1].name in ("clone", "copied", "cloned", "deref") and base[2]):
